@@ -56,6 +56,13 @@ class _Cfg:
 CFG = _Cfg()
 def with_getattr(ds):
     return ds.Select(lambda e: e.f(CFG.val))
+def hard_h(e, cut):
+    # a helper that hands the value it is given on to an inner stage lambda with the name=name early-binding idiom
+    return e.jets.Where(lambda j, *, cut=cut: j.pt > cut)
+def with_global_via_helper_default(ds):
+    return ds.Select(lambda e: hard_h(e, G))
+def with_global_via_own_default(ds):
+    return ds.Select(lambda e: e.jets.Where(lambda j, G=G: j.pt > G))
 def make_closure_deep(v):
     def inner(ds):
         return ds.Select(lambda e: e.jets.Select(lambda j: j.trks.Where(lambda t: t.pt > v)))
@@ -184,6 +191,20 @@ def run_value(mon, ds, capmod, v, rnd):
         attempt("AsParquetFiles.columns", lambda: ds.AsParquetFiles("f", v), lambda s: s.query_ast.args[1].elts[0])
     # declared defaults of a typed method and of a registered function
     transportable = valgen.is_scalar_transportable(v)
+    if transportable and not isinstance(v, (list, tuple, dict)) and v is not None:
+        # declared default of a record class whose constructor call is lowered to a dictionary: a namedtuple made with defaults= and
+        # given ANOTHER default since, the old way; a dataclass field
+        import collections
+        import dataclasses
+
+        from func_adl.ast.syntatic_sugar import resolve_syntatic_sugar
+
+        NTv = collections.namedtuple("NTv", "x y", defaults=("stale-x", "stale-y"))
+        NTv.__new__.__defaults__ = (v,)
+        DCv = dataclasses.make_dataclass("DCv", [("x", float), ("y", object, dataclasses.field(default=v))])
+        for entry, cls in (("namedtuple.default-replaced-on-__new__", NTv), ("dataclass.field-default", DCv)):
+            call = ast.Call(func=ast.Constant(value=cls), args=[ast.Constant(value=1.5)], keywords=[])
+            attempt(entry, lambda call=call: resolve_syntatic_sugar(astx.lam(["e"], call)), lambda r: dict(zip([k.value for k in r.body.keys], r.body.values))["y"])
 
     class Evt:
         def m(self, a=v) -> float: ...
@@ -248,6 +269,8 @@ def run_value(mon, ds, capmod, v, rnd):
         ("capture.global.parameterized-call", capmod.with_global_param, lambda s: s.query_ast.args[1].body.func.slice),
         ("capture.global.parameterized-call-nested", capmod.with_global_param_nested, lambda s: s.query_ast.args[1].body.args[0].body.func.slice.elts[0]),
         ("capture.attribute-served-by-__getattr__", capmod.with_getattr, lambda s: s.query_ast.args[1].body.args[0]),
+        ("capture.global.handed-on-by-a-helper-as-name=name-default", capmod.with_global_via_helper_default, lambda s: s.query_ast.args[1].body.args[0].args.kw_defaults[0]),
+        ("capture.global.as-name=name-default", capmod.with_global_via_own_default, lambda s: s.query_ast.args[1].body.args[0].args.defaults[0]),
         ("capture.global.subscript", capmod.with_global_slice, lambda s: s.query_ast.args[1].body.slice),
         ("capture.global.depth3", capmod.with_global_deep, lambda s: s.query_ast.args[1].body.args[0].body.args[0].body.comparators[0]),
         ("capture.global.depth4", capmod.with_global_deep4, lambda s: s.query_ast.args[1].body.args[0].body.args[0].body.args[0].body.elts[1]),
